@@ -381,7 +381,9 @@ theorem length_doEdgeFlip (ch : Rat → Rat) (edges : List Edge) (bm : List (Lis
   simp only []
   split
   · rfl
-  · split <;> simp [length_flipAt]
+  · split
+    · rfl
+    · split <;> simp [length_flipAt]
 
 theorem length_doWormFlip (ch : Rat → Rat) (bm : List (List (Nat × Rat))) (biases : List Rat)
     (doubles : Bool) (x : List Bool × RS) :
@@ -617,15 +619,83 @@ theorem accProb_of_nonpos (ch : Rat → Rat) (de : Rat) (h : de ≤ 0) : accProb
   have : ¬ de > 0 := not_lt.mpr h
   simp [this]
 
+theorem absR_nonneg (x : Rat) : 0 ≤ absR x := by
+  unfold absR; split <;> linarith
+
 theorem cumTable_fold_total (edges : List Edge) (acc : List Rat × Rat) :
-    (edges.foldl (fun (acc : List Rat × Rat) e => (acc.1 ++ [acc.2 + e.2], acc.2 + e.2)) acc).2
-      = acc.2 + (edges.map (·.2)).sum := by
+    (edges.foldl (fun (acc : List Rat × Rat) e => (acc.1 ++ [acc.2 + absR e.2], acc.2 + absR e.2)) acc).2
+      = acc.2 + (edges.map fun e => absR e.2).sum := by
   induction edges generalizing acc with
   | nil => simp
   | cons e es ih => simp only [List.foldl_cons, ih, List.map_cons, List.sum_cons]; ring
 
-theorem cumTable_total (edges : List Edge) : (cumTable edges).2 = (edges.map (·.2)).sum := by
+theorem cumTable_total (edges : List Edge) : (cumTable edges).2 = (edges.map fun e => absR e.2).sum := by
   unfold cumTable; rw [cumTable_fold_total]; simp
+
+/-- recursive characterisation: the table of `es ++ [e]` is the table of `es` extended by the new total -/
+theorem cumTable_snoc (es : List Edge) (e : Edge) :
+    cumTable (es ++ [e]) =
+      ((cumTable es).1 ++ [(cumTable es).2 + absR e.2], (cumTable es).2 + absR e.2) := by
+  unfold cumTable; rw [List.foldl_append]; rfl
+
+/-- the table is non-decreasing, bounded by the total, as long as the edge list -/
+theorem cumTable_sorted (edges : List Edge) :
+    (cumTable edges).1.Pairwise (· ≤ ·) ∧ (∀ x ∈ (cumTable edges).1, x ≤ (cumTable edges).2)
+      ∧ (cumTable edges).1.length = edges.length := by
+  induction edges using List.reverseRecOn with
+  | nil => simp [cumTable]
+  | append_singleton es e ih =>
+    rw [cumTable_snoc]
+    obtain ⟨h1, h2, h3⟩ := ih
+    have hab := absR_nonneg e.2
+    refine ⟨?_, ?_, ?_⟩
+    · rw [List.pairwise_append]
+      refine ⟨h1, by simp, ?_⟩
+      intro a ha b hb
+      simp at hb; subst hb
+      have := h2 a ha; linarith
+    · intro x hx
+      simp at hx
+      rcases hx with hx | hx
+      · have := h2 x hx; linarith
+      · rw [hx]
+    · simp [h3]
+
+/-- in a non-decreasing list, `#{x < p}` splits the list into the entries `< p` and those `≥ p` -/
+theorem count_lt_sorted (l : List Rat) (hs : l.Pairwise (· ≤ ·)) (p : Rat) :
+    (∀ x ∈ l.take (l.filter (· < p)).length, x < p)
+      ∧ (∀ x ∈ l.drop (l.filter (· < p)).length, p ≤ x) := by
+  induction l with
+  | nil => simp
+  | cons a t ih =>
+    have hs' := (List.pairwise_cons.mp hs).2
+    have ha := (List.pairwise_cons.mp hs).1
+    by_cases hap : a < p
+    · have hf : (a :: t).filter (· < p) = a :: t.filter (· < p) := by simp [hap]
+      rw [hf]
+      simp only [List.length_cons, List.take_succ_cons, List.drop_succ_cons]
+      refine ⟨?_, (ih hs').2⟩
+      intro x hx
+      rcases List.mem_cons.mp hx with h | h
+      · rw [h]; exact hap
+      · exact (ih hs').1 x h
+    · have hall : ∀ x ∈ t, ¬ x < p := by
+        intro x hx hxp
+        have := ha x hx
+        exact hap (lt_of_le_of_lt this hxp)
+      have hf : (a :: t).filter (· < p) = [] := by
+        rw [List.filter_eq_nil_iff]
+        intro x hx
+        rcases List.mem_cons.mp hx with h | h
+        · rw [h]; simpa using hap
+        · simpa using hall x h
+      rw [hf]
+      refine ⟨by simp, ?_⟩
+      intro x hx
+      simp at hx
+      rcases hx with h | h
+      · rw [h]; exact not_lt.mp hap
+      · exact not_lt.mp (hall x h)
 
 theorem noteMargin_panicked (rs : RS) (m : Rat) : (rs.noteMargin m).panicked = rs.panicked := by
   unfold RS.noteMargin; simp only []; split <;> split <;> rfl
@@ -639,18 +709,50 @@ theorem foldl_noteMargin_panicked (l : List Rat) (p : Rat) (rs : RS) :
 theorem next_panicked (rs : RS) : rs.next.2.panicked = rs.panicked := by
   unfold RS.next; split <;> rfl
 
-/-- importance sampling: the edge move panics exactly when the total signed weight is `≤ 0` -/
-theorem pickEdge_importance_panics_iff (m : Nat) (table : List Rat) (total : Rat) (rs : RS)
-    (h : rs.panicked = false) :
-    (pickEdge m (some (table, total)) rs).2.panicked = true ↔ total ≤ 0 := by
-  unfold pickEdge
-  simp only []
-  have key : (rs.genRangeF total).2.panicked = true ↔ total ≤ 0 := by
-    unfold RS.genRangeF
-    by_cases ht : total ≤ 0
-    · simp [ht]
-    · simp only [ht, if_false, next_panicked, h]; simp
-  split <;> simp only [noteMargin_panicked, foldl_noteMargin_panicked] <;> exact key
+theorem genRangeLoop_panicked (range zone fuel : Nat) (rs : RS) :
+    (RS.genRangeLoop range zone fuel rs).2.panicked = rs.panicked := by
+  induction fuel generalizing rs with
+  | zero => simp [RS.genRangeLoop]
+  | succ f ih =>
+    unfold RS.genRangeLoop
+    simp only []
+    split
+    · exact next_panicked rs
+    · split
+      · exact next_panicked rs
+      · rw [ih, next_panicked]
+
+theorem genRange_panicked (rs : RS) (n : Nat) (hn : n ≠ 0) :
+    (rs.genRange n).2.panicked = rs.panicked := by
+  unfold RS.genRange
+  simp only [hn, if_false]
+  exact genRangeLoop_panicked _ _ _ _
+
+/-- the edge selection never panics on a graph with at least one edge, with or without
+importance sampling (the table is only installed when its total is positive) -/
+theorem pickEdge_no_panic (edges : List Edge) (enable : Bool) (rs : RS) (h : rs.panicked = false)
+    (hne : edges ≠ []) :
+    (pickEdge edges.length (importanceTable edges enable) rs).2.panicked = false := by
+  have hlen : edges.length ≠ 0 := by simpa using hne
+  unfold importanceTable
+  by_cases he : enable = true
+  · by_cases ht : (cumTable edges).2 > 0
+    · simp only [he, ht, if_true]
+      unfold pickEdge
+      simp only [foldl_noteMargin_panicked]
+      unfold RS.genRangeF
+      have : ¬ (cumTable edges).2 ≤ 0 := not_le.mpr ht
+      simp only [this, if_false, next_panicked, h]
+    · simp only [he, ht, if_true, if_false]
+      unfold pickEdge
+      simp only []
+      rw [genRange_panicked rs _ hlen, h]
+  · have he' : enable = false := by cases enable <;> simp_all
+    subst he'
+    simp only [Bool.false_eq_true, if_false]
+    unfold pickEdge
+    simp only []
+    rw [genRange_panicked rs _ hlen, h]
 
 /-! ### worm kernel: independence of the acceptance function when no proposal costs bias energy -/
 
